@@ -9,7 +9,8 @@ The front end claims that every rewrite is behaviour preserving.  For every seed
   3. the seed's demonstration is run against that tree.
 
 A behaviour-preserving seed must still pass its demonstration (the front end did not break the program), a breaking seed
-must still fail it (the front end did not "repair" the defect - which would hide it from every rule).  Nothing here is a check of a
+must still fail it (the front end did not "repair" the defect - which would hide it from every rule).  One step is switched off
+for this test (SA_KEEP_INERT=1): S10 removes diagnostics written to stderr, which no rule looks at but some demonstrations do.  Nothing here is a check of a
 property and nothing is registered in MANIFEST.json: it is a test of the checker, run by hand after changes to canon.py.
 
   python3-vt tools/canon_check.py [--only C05] [--jobs 8] [-v]
@@ -41,6 +42,7 @@ def job(args):
         if r.returncode != 0:
             return name, {'error': 'patch does not apply'}
         from sa.core import Repo
+        os.environ['SA_KEEP_INERT'] = '1'     # S10 drops messages on stderr (irrelevant to the rules); some demonstrations read them
         repo = Repo(tmp)
         changed = []
         for rel, m in repo.modules.items():
